@@ -60,6 +60,9 @@ def reads_of(ch, lazy, n):
     put("read_data(n+3, 2)", lambda: ch.read_data(n + 3, 2))
     put("[1:3]", lambda: ch[1:3])
     put("[::-2]", lambda: ch[::-2])
+    put("[::16]", lambda: ch[::16])
+    put("[::-20]", lambda: ch[::-20])
+    put("[3:n:33]", lambda: ch[3:n:33])
     put("[5:2]", lambda: ch[5:2])
     put("[-1:]", lambda: ch[-1:])
     if n > 0:
@@ -197,7 +200,7 @@ def run(ctx):
                 numeric = ty in gs.NUMERIC
                 if sk != "none" and not numeric:
                     continue
-                n = rnd.choice([0, 1, 4, 7]) if rd else rnd.choice([4, 7])
+                n = rnd.choice([0, 1, 4, 7, 40]) if rd else rnd.choice([4, 7, 40])      # 40: long enough for slices with large steps to pick several values
                 props, graph = [], None
                 if sk == "graph":
                     props, graph = gs.draw_graph(rnd, with_noop=True)
@@ -317,7 +320,7 @@ def run(ctx):
                 coverage=dict(evaluations=stats["reads"], distinct_nontrivial=len(combos),
                               rule="eager, lazy and lazy with memmap_dir; every readable raw type (17) x {no scaling, Linear, Polynomial, Table, Add, Subtract, RTD, Strain, Thermistor, Thermocouple, AdvancedAPI, "
                                    "random graph} (scalings on numeric types) x {eager, lazy} x {[:], read_data(), windows incl. empty and out-of-range, slices incl. empty and "
-                                   "stepped, integer index, .data, every channel chunk} with 0-7 values split over two segments, both byte orders, contiguous and (fixed-width types, 30 %) interleaved; distinct_nontrivial = "
+                                   "stepped, integer index, .data, every channel chunk} with 0-7 or 40 values split over two segments, both byte orders, contiguous and (fixed-width types, 30 %) interleaved; distinct_nontrivial = "
                                    "distinct (raw type, scale kind, empty?) combinations; plus generated DAQmx files (format-changing and digital-line scalers of every type) made readable through NI_Number_Of_Scales: every read of every kind against channel.dtype",
                               samples=samples or [dict(note="none")], counts=stats))
 
